@@ -173,7 +173,7 @@ void lifeLog(const std::shared_ptr<Tcp::Peer>& peer, char e)
 }
 
 // ---- C06/C07: scripted socket outcomes and raw writes issued by the handler ----
-struct WriteSpec { bool file; size_t size; };
+struct WriteSpec { bool file; size_t size; bool dead = false; };   // dead: addressed to a descriptor that is no longer a peer
 struct WrState {
     std::mutex m; std::condition_variable cv;
     bool active = false;                 // the handler issues raw writes instead of serving HTTP
@@ -238,7 +238,11 @@ public:
                 const size_t slot = base + i;
                 auto onOk = [slot](ssize_t n) { std::lock_guard<std::mutex> g(WR.m); WR.promises[slot] = "ok:" + std::to_string(n); ++WR.settles[slot]; WR.cv.notify_all(); };
                 auto onRej = [slot](std::exception_ptr) { std::lock_guard<std::mutex> g(WR.m); WR.promises[slot] = "rej"; ++WR.settles[slot]; WR.cv.notify_all(); };
-                if (ws[i].file) {
+                if (ws[i].dead) {
+                    // a write for a peer that is gone: the transport drops it; what is queued behind it must still be delivered
+                    { std::lock_guard<std::mutex> g(WR.m); WR.promises[slot] = "skip"; }
+                    tr->asyncWrite(99999, RawBuffer(data, data.size()));
+                } else if (ws[i].file) {
                     std::string path = dir + "/wr-" + std::to_string(getpid()) + "-" + std::to_string(i) + ".bin";
                     { FILE* f = fopen(path.c_str(), "wb"); if (f) { fwrite(data.data(), 1, data.size(), f); fclose(f); } }
                     tr->asyncWrite(fd, FileBuffer(path)).then(onOk, onRej);
@@ -831,7 +835,7 @@ std::string opWr(const std::vector<std::string>& w)
     if (w.size() != 4) return "bad-op";
     Cfg c; uint16_t port = ensureEndpoint(c);
     std::vector<WriteSpec> ws; size_t total = 0;
-    for (auto& t : split(w[2], ',')) { if (t.size() < 2) return "bad-op"; WriteSpec x { t[0] == 'f', strtoul(t.c_str() + 1, nullptr, 10) }; ws.push_back(x); total += x.size; }
+    for (auto& t : split(w[2], ',')) { if (t.size() < 2) return "bad-op"; WriteSpec x { t[0] == 'f', strtoul(t.c_str() + 1, nullptr, 10), t[0] == 'd' }; ws.push_back(x); if (!x.dead) total += x.size; }
     {
         std::lock_guard<std::mutex> g(WR.m);
         WR.active = true; WR.foreign = w[1] == "F"; WR.pattern = w[1].size() > 1 ? w[1] : std::string(); WR.writes = ws; WR.script = split(w[3], ','); WR.next = 0; WR.targetFd = -1;
@@ -859,17 +863,20 @@ std::string opWr(const std::vector<std::string>& w)
     Pistache::Verif::writeHook = nullptr;
     // compare with the concatenation of the buffers in the order issued
     size_t firstDiff = std::string::npos, pos = 0;
-    for (size_t i = 0; i < ws.size() && firstDiff == std::string::npos; ++i)
+    for (size_t i = 0; i < ws.size() && firstDiff == std::string::npos; ++i) {
+        if (ws[i].dead) continue;
         for (size_t p = 0; p < ws[i].size; ++p, ++pos) {
             if (pos >= got.size() || static_cast<unsigned char>(got[pos]) != patternByte(i, p)) { firstDiff = pos; break; }
         }
+    }
     if (firstDiff == std::string::npos && got.size() != total) firstDiff = total;
     std::string out = "recv=" + std::to_string(got.size()) + " expected=" + std::to_string(total) + " match=" + (firstDiff == std::string::npos ? "1" : "0:" + std::to_string(firstDiff));
     std::lock_guard<std::mutex> g(WR.m);
     WR.active = false;
     out += " promises=";
-    for (size_t i = 0; i < WR.promises.size(); ++i) { if (i) out += ","; out += WR.promises[i] + (WR.settles[i] > 1 ? "x" + std::to_string(WR.settles[i]) : ""); }
-    if (WR.promises.empty()) out += "-";
+    { bool first = true; size_t shown = 0;
+      for (size_t i = 0; i < WR.promises.size(); ++i) { if (WR.promises[i] == "skip") continue; if (!first) out += ","; first = false; ++shown; out += WR.promises[i] + (WR.settles[i] > 1 ? "x" + std::to_string(WR.settles[i]) : ""); }
+      if (!shown) out += "-"; }
     out += " calls=";
     for (size_t i = 0; i < WR.calls.size(); ++i) { if (i) out += ","; out += WR.calls[i]; }
     if (WR.calls.empty()) out += "-";
